@@ -31,6 +31,7 @@ import QEProofs.Lemmas.C09Optimal
 import QEProofs.Lemmas.C09Unique
 import QEProofs.Lemmas.C09Given
 import QEProofs.Lemmas.C09OptimalProd
+import QEProofs.Lemmas.C09Dispatch
 namespace QE.C09
 set_option linter.unusedSectionVars false
 
@@ -359,6 +360,74 @@ example : generateAIndptrUnbounded 3 [0, 0] = none := by decide
 example : generateAIndptr 3 [0, 0] = [0, 2, 2, 2] := by decide
 example : generateAIndptr 4 [1, 1, 3] = [0, 0, 2, 2, 3] := by decide
 example : generateAIndptrUnbounded 4 [1, 1, 3] = some [0, 0, 2, 2, 3] := by decide
+
+
+/-! ## argument handling of the constructor: which formulation, or which `ValueError` -/
+
+/-- **The state-action-pair formulation is selected exactly for the documented shapes**:
+    `dispatch` answers `sa L n sparse` iff `Q` has shape `(L, n)` (dense 2-D or sparse), `R` has
+    shape `(L,)`, both index arrays are supplied with length `L`, and `sparse = issparse(Q)`. -/
+theorem dispatch_sa_iff (x : RawArgs) (L n : Nat) (sp : Bool) :
+    dispatch x = .ok (.sa L n sp) ↔
+      (x.qShape = [L, n] ∧ x.rShape = [L] ∧ x.sLen = some L ∧ x.aLen = some L ∧ x.qSparse = sp) :=
+  dispatch_sa_iff' x L n sp
+
+/-- **The product formulation is selected exactly for a dense `Q` of shape `(n, m, n)` and `R` of
+    shape `(n, m)`** — whatever `s_indices` / `a_indices` are (they are ignored). -/
+theorem dispatch_prod_iff (x : RawArgs) (n m : Nat) :
+    dispatch x = .ok (.prod n m) ↔
+      (x.qSparse = false ∧ x.rShape = [n, m] ∧ x.qShape = [n, m, n]) :=
+  dispatch_prod_iff' x n m
+
+/-- **Everything else is rejected** (the result type has no third alternative: a `ShapeErr`,
+    each of which is a `ValueError`): the constructor gets past the shape stage **iff** the
+    arguments have one of the two documented shape patterns. -/
+theorem dispatch_accepts_iff (x : RawArgs) :
+    (∃ f, dispatch x = .ok f) ↔
+      ((∃ L n, x.qShape = [L, n] ∧ x.rShape = [L] ∧ x.sLen = some L ∧ x.aLen = some L) ∨
+       (x.qSparse = false ∧ ∃ n m, x.rShape = [n, m] ∧ x.qShape = [n, m, n])) := by
+  constructor
+  · rintro ⟨f, hf⟩
+    cases f with
+    | sa L n sp =>
+      obtain ⟨h1, h2, h3, h4, _⟩ := (dispatch_sa_iff' x L n sp).mp hf
+      exact Or.inl ⟨L, n, h1, h2, h3, h4⟩
+    | prod n m =>
+      obtain ⟨h1, h2, h3⟩ := (dispatch_prod_iff' x n m).mp hf
+      exact Or.inr ⟨h1, n, m, h2, h3⟩
+  · rintro (⟨L, n, h1, h2, h3, h4⟩ | ⟨h1, n, m, h2, h3⟩)
+    · exact ⟨_, (dispatch_sa_iff' x L n x.qSparse).mpr ⟨h1, h2, h3, h4, rfl⟩⟩
+    · exact ⟨_, (dispatch_prod_iff' x n m).mpr ⟨h1, h2, h3⟩⟩
+
+/-- **which message** — the dimension tests come first, in the order of the code
+    (a sparse `Q` is 2-dimensional): 'Q must be 2- or 3-dimensional', then 'R must be 1- or
+    2-dimensional' -/
+theorem dispatch_dim_errors_iff (x : RawArgs) (hsp : x.qSparse = true → x.qShape.length = 2) :
+    (dispatch x = .error .qDim ↔ (x.qSparse = false ∧ x.qShape.length ≠ 2 ∧ x.qShape.length ≠ 3)) ∧
+    (dispatch x = .error .rDim ↔ ((x.qSparse = true ∨ x.qShape.length = 2 ∨ x.qShape.length = 3) ∧
+        x.rShape.length ≠ 1 ∧ x.rShape.length ≠ 2)) :=
+  dispatch_error_iff' x hsp
+
+/-- … and the index-array messages arise exactly for a well-shaped SA pair `R (L,)`, `Q (L, n)`:
+    's_indices must be supplied' iff `s_indices` is missing; 'a_indices must be supplied' iff only
+    `a_indices` is missing; the length message iff both are there and one length is not `L`. -/
+theorem dispatch_index_errors_iff (x : RawArgs) :
+    (dispatch x = .error .sMissing ↔ ∃ L n, x.qShape = [L, n] ∧ x.rShape = [L] ∧ x.sLen = none) ∧
+    (dispatch x = .error .aMissing ↔ ∃ L n, x.qShape = [L, n] ∧ x.rShape = [L] ∧ x.sLen ≠ none ∧ x.aLen = none) ∧
+    (dispatch x = .error .length ↔ ∃ L n sl al, x.qShape = [L, n] ∧ x.rShape = [L] ∧ x.sLen = some sl ∧
+        x.aLen = some al ∧ ¬ (sl = L ∧ al = L)) :=
+  dispatch_index_errors' x
+
+example : dispatch ⟨[4], [4, 2], true, some 4, some 4⟩ = .ok (.sa 4 2 true) := by decide
+example : dispatch ⟨[2, 3], [2, 3, 2], false, none, none⟩ = .ok (.prod 2 3) := by decide
+example : dispatch ⟨[2, 3], [2, 3, 2], false, some 7, none⟩ = .ok (.prod 2 3) := by decide
+example : dispatch ⟨[], [4, 2], false, some 4, some 4⟩ = .error .rDim := by decide
+example : dispatch ⟨[4], [4], false, some 4, some 4⟩ = .error .qDim := by decide
+example : dispatch ⟨[4, 1], [4, 2], true, some 4, some 4⟩ = .error .dimension := by decide
+example : dispatch ⟨[2, 3], [2, 3, 3], false, none, none⟩ = .error .shape := by decide
+example : dispatch ⟨[4], [4, 2], false, none, none⟩ = .error .sMissing := by decide
+example : dispatch ⟨[4], [4, 2], false, some 4, none⟩ = .error .aMissing := by decide
+example : dispatch ⟨[4], [4, 2], false, some 4, some 3⟩ = .error .length := by decide
 
 /-! ## the constructor's feasibility check -/
 
